@@ -9,6 +9,7 @@ package zzvrt
 import (
 	"encoding/json"
 	"fmt"
+	"net"
 	"os"
 )
 
@@ -130,6 +131,22 @@ func MaxRecursion(n int) {}
 
 // Spawned returns how many go statements were reached (ghost events); natively 0.
 func Spawned() int { return 0 }
+
+var blackhole net.Listener
+
+// BlackholeAddr returns a TCP address whose connections are accepted by the kernel and never answered:
+// goroutines the code under test spawns to dial it stay blocked in their handshake for the whole replay
+// instead of racing with the harness (the symbolic executor does not execute goroutine bodies at all).
+func BlackholeAddr() string {
+	if blackhole == nil {
+		l, err := net.Listen("tcp", "127.0.0.1:0")
+		if err != nil {
+			panic(err)
+		}
+		blackhole = l
+	}
+	return blackhole.Addr().String()
+}
 
 // Symbolic reports whether the harness runs under the symbolic executor.
 func Symbolic() bool { return false }
